@@ -304,12 +304,12 @@ type fnode struct {
 	note   string
 }
 
-func newDir() *fnode                { return &fnode{kind: 'd', ents: map[string]*fnode{}} }
+func newDir() *fnode                       { return &fnode{kind: 'd', ents: map[string]*fnode{}} }
 func newFile(b []byte, note string) *fnode { return &fnode{kind: 'f', data: b, note: note} }
-func newLink(t string) *fnode       { return &fnode{kind: 'l', target: t} }
+func newLink(t string) *fnode              { return &fnode{kind: 'l', target: t} }
 func newFifo(b []byte, note string) *fnode { return &fnode{kind: 'p', data: b, note: note} }
-func newSocket() *fnode             { return &fnode{kind: 's'} }
-func newNullDev() *fnode            { return &fnode{kind: 'c'} }
+func newSocket() *fnode                    { return &fnode{kind: 's'} }
+func newNullDev() *fnode                   { return &fnode{kind: 'c'} }
 
 // put places n at the slash-separated path below d, creating directories.
 func (d *fnode) put(p string, n *fnode) {
@@ -582,10 +582,11 @@ func classify(err error) (cls, kind, entry string) {
 // ctx: 0 = context.Background(); 's' = scripted context that reports done from its
 // (after+1)-th poll on (after = 0: done from the first poll); 'c' = a real context
 // cancelled before the call
-type query struct {
-	ty, name string
-	ctx      byte
-	after    int
+type query struct{ ty, name string }
+
+type ctxSpec struct {
+	ctx   byte
+	after int
 }
 
 // scriptCtx is a context.Context whose Err / Done report "deadline exceeded" after a given
@@ -600,7 +601,9 @@ type scriptCtx struct {
 	open  bool
 }
 
-func newScriptCtx(after int) *scriptCtx { return &scriptCtx{after: after, ch: make(chan struct{}), open: true} }
+func newScriptCtx(after int) *scriptCtx {
+	return &scriptCtx{after: after, ch: make(chan struct{}), open: true}
+}
 
 func (c *scriptCtx) poll() bool {
 	c.mu.Lock()
@@ -644,6 +647,8 @@ type scenario struct {
 	special bool
 	// the call is made in a child process with a time limit (it may never return)
 	child bool
+	// family ctx: the context of each query (same length as queries)
+	ctxs []ctxSpec
 }
 
 func (sc *scenario) steps() []*scenario { return append([]*scenario{sc}, sc.next...) }
@@ -1469,9 +1474,11 @@ func (g *gen) scenarios(tier string, emit func(*scenario)) {
 				nm := Pick(rng, plainNames)
 				g.goodStore(sc, storeRel(ty, nm), ty, k)
 				for n := 0; n <= k+1; n++ {
-					sc.queries = append(sc.queries, query{ty: ty, name: nm, ctx: 's', after: n})
+					sc.queries = append(sc.queries, query{ty, nm})
+					sc.ctxs = append(sc.ctxs, ctxSpec{'s', n})
 				}
-				sc.queries = append(sc.queries, query{ty: ty, name: nm, ctx: 'c'}, query{ty: ty, name: nm})
+				sc.queries = append(sc.queries, query{ty, nm}, query{ty, nm})
+				sc.ctxs = append(sc.ctxs, ctxSpec{'c', 0}, ctxSpec{})
 				emit(sc)
 			}
 			sc := &scenario{family: "ctx:bad-last", root: newDir()}
@@ -1486,9 +1493,11 @@ func (g *gen) scenarios(tier string, emit func(*scenario)) {
 				}
 			}
 			for n := 0; n <= 4; n++ {
-				sc.queries = append(sc.queries, query{ty: ty, name: nm, ctx: 's', after: n})
+				sc.queries = append(sc.queries, query{ty, nm})
+				sc.ctxs = append(sc.ctxs, ctxSpec{'s', n})
 			}
-			sc.queries = append(sc.queries, query{ty: ty, name: nm})
+			sc.queries = append(sc.queries, query{ty, nm})
+			sc.ctxs = append(sc.ctxs, ctxSpec{})
 			emit(sc)
 		}
 	}
@@ -1569,7 +1578,7 @@ func runC13(a *Args) error {
 	// gcase = a case over the property's alphabet (GB, judged by C13_Model.run's functions) or over the
 	// larger alphabet with FIFOs / sockets / devices (GX, C13_Special); grun (map GB cs) = run cs is proved
 	w := NewCaseWriter(a, "C13", prelude, "gcase", "grun")
-	w.Rule = "real temporary directory trees queried through truststore.NewX509TrustStore(dir.NewSysFS(root)).GetCertificates: (valid) stores of 1-4 good files per type; (one-bad) one offending entry of each of 17 kinds at every position among 1-4 entries; the same files under all three types; 14 shapes of the store path itself (symlinked store inside/outside/relative/chained, dangling, file, absent, empty, type directory absent/file/symlink, x509 a file, truststore a symlink); non-plain names and unknown types with a loadable store placed where an unvalidated path.Join would lead (incl. '.', '..', '' with certificates directly in the type directory and in x509/); randomly assembled trees; (history) 2-5 states of one directory queried through ONE X509TrustStore instance: pass/fail/pass, fail/pass/fail, certificates replaced, store removed and recreated, store turned into a symlink / a file and back, an entry turned into a symlink, same name under another type - each call is its own case judged on the tree as read back at that moment; (near-name / near-type) a name or type one normalisation away from a valid one (surrounding white space, case, first / last path element, trailing separator, NUL, trailing dot, quotes, list) with loadable stores at every place a normalising implementation would read and nothing at the literal plain name; (skippable-entry-name) hidden / backup / readme / odd-extension names as the offending entry, as a good file among others, as the only file, as directory or link; (cert-position) the unacceptable certificate at every position of a 2-4 certificate file, that file first and last; (special-entry: entries that are neither regular files, directories nor links; cases over C13_Special.xnode, model xmodel, oracle xspec_ok: loading anything from, or a store passing over, such an entry is a violation) a FIFO that nobody writes to at every position among 1-3 entries and before an unparsable file (the call is made in a re-executed child process with a 3 s limit: not returning is recorded as a violation), a FIFO fed by a concurrent writer with a good certificate / garbage / nothing / an unacceptable certificate / a non-root (tsa), a socket, the null device (where mknod is permitted) at every position among 1-3 entries, two FIFOs in one store, the store path or the type directory being a FIFO / socket. File formats: PEM, DER, multi-certificate, PEM with surrounding text, other block type, CRLF. The tree handed to the model is read back with Lstat/ReadDir/EvalSymlinks and file facts are asked from notation-core-go and crypto/x509. non-trivial = some regular file with at least one certificate exists below the root or behind a link; distinct = distinct (tree, type, name)"
+	w.Rule = "real temporary directory trees queried through truststore.NewX509TrustStore(dir.NewSysFS(root)).GetCertificates: (valid) stores of 1-4 good files per type; (one-bad) one offending entry of each of 17 kinds at every position among 1-4 entries; the same files under all three types; 14 shapes of the store path itself (symlinked store inside/outside/relative/chained, dangling, file, absent, empty, type directory absent/file/symlink, x509 a file, truststore a symlink); non-plain names and unknown types with a loadable store placed where an unvalidated path.Join would lead (incl. '.', '..', '' with certificates directly in the type directory and in x509/); randomly assembled trees; (history) 2-5 states of one directory queried through ONE X509TrustStore instance: pass/fail/pass, fail/pass/fail, certificates replaced, store removed and recreated, store turned into a symlink / a file and back, an entry turned into a symlink, same name under another type - each call is its own case judged on the tree as read back at that moment; (near-name / near-type) a name or type one normalisation away from a valid one (surrounding white space, case, first / last path element, trailing separator, NUL, trailing dot, quotes, list) with loadable stores at every place a normalising implementation would read and nothing at the literal plain name; (skippable-entry-name) hidden / backup / readme / odd-extension names as the offending entry, as a good file among others, as the only file, as directory or link; (cert-position) the unacceptable certificate at every position of a 2-4 certificate file, that file first and last; (special-entry: entries that are neither regular files, directories nor links; cases over C13_Special.xnode, model xmodel, oracle xspec_ok: loading anything from, or a store passing over, such an entry is a violation) a FIFO that nobody writes to at every position among 1-3 entries and before an unparsable file (the call is made in a re-executed child process with a 3 s limit: not returning is recorded as a violation), a FIFO fed by a concurrent writer with a good certificate / garbage / nothing / an unacceptable certificate / a non-root (tsa), a socket, the null device (where mknod is permitted) at every position among 1-3 entries, two FIFOs in one store, the store path or the type directory being a FIFO / socket. (ctx: the caller's context; cases GC over C13_Special.ccase, judged by cagree / cspec_ok) loadable stores of 2-6 files of every type and a store with an unparsable last file, queried through one instance with a scripted context.Context whose Err()/Done() report deadline exceeded from poll n+1 on (n = 0..k+1: before any file, between any two files, after the last, never), then with a context cancelled before the call, then with context.Background(): either an error with a nil slice or exactly the full set - a proper subset (certificates collected before the scan was given up) is an oracle violation; an error for a loadable store is accepted only when the context can be done. File formats: PEM, DER, multi-certificate, PEM with surrounding text, other block type, CRLF. The tree handed to the model is read back with Lstat/ReadDir/EvalSymlinks and file facts are asked from notation-core-go and crypto/x509. non-trivial = some regular file with at least one certificate exists below the root or behind a link; distinct = distinct (tree, type, name)"
 	w.Assumptions = []string{
 		"directory entries are regular files, directories or symbolic links; FIFOs, sockets and the null device are covered by the family special-entry over the larger alphabet of C13_Special (what a FIFO would deliver = what the parser says of the bytes the harness's writer stands ready to feed; block devices and other kinds are not created)",
 		"os.ReadDir of an existing real directory succeeds and files are readable (the harness runs as the owner); a read error is covered by the same branch as a parse error (CErr)",
@@ -1643,8 +1652,12 @@ func runC13(a *Args) error {
 			if len(steps) > 1 {
 				stepText = fmt.Sprintf("state %d of %d of one directory, all calls on one X509TrustStore instance", si+1, len(steps))
 			}
-			for _, q := range st.queries {
+			for qi, q := range st.queries {
 				my++
+				var qc ctxSpec
+				if qi < len(st.ctxs) {
+					qc = st.ctxs[qi]
+				}
 				// every call of the scenario is made (earlier calls are the state of the instance); only wanted ones are emitted
 				stopFeed := func() {}
 				if st.special {
@@ -1665,23 +1678,23 @@ func runC13(a *Args) error {
 						hangs++
 						if w.Want(my) {
 							w.ImplViolation(my, "GetCertificates did not return within 3 s: it opens a FIFO entry of the store that nobody writes to (an entry that is not a regular file must be refused, not read)",
-								c13Case{sc.family, q.ty, q.name, lines, "no result: the call blocks", stepText}, "blocks-on-fifo")
+								c13Case{sc.family, q.ty, q.name, lines, "no result: the call blocks", stepText, ""}, "blocks-on-fifo")
 						}
 						continue
 					}
 				} else {
 					var ctx context.Context = context.Background()
-					switch q.ctx {
+					switch qc.ctx {
 					case 's':
-						ctx = newScriptCtx(q.after)
+						ctx = newScriptCtx(qc.after)
 					case 'c':
 						c2, cancel := context.WithCancel(context.Background())
 						cancel()
 						ctx = c2
 					}
 					certs, err = ts.GetCertificates(ctx, truststore.Type(q.ty), q.name)
-					if sc, ok := ctx.(*scriptCtx); ok && w.Want(my) {
-						w.Count("ctx_polls_seen", fmt.Sprint(sc.Polls()))
+					if sx, ok := ctx.(*scriptCtx); ok && w.Want(my) {
+						w.Count("ctx_polls_seen", fmt.Sprint(sx.Polls()))
 					}
 				}
 				stopFeed()
@@ -1696,7 +1709,7 @@ func runC13(a *Args) error {
 					w.Count("observed", kind)
 					if certs != nil {
 						// an error together with certificates: report as a returned list
-						w.ImplViolation(my, "GetCertificates returned certificates together with an error", c13Case{sc.family, q.ty, q.name, lines, obsText, stepText}, "partial-with-error")
+						w.ImplViolation(my, "GetCertificates returned certificates together with an error", c13Case{sc.family, q.ty, q.name, lines, obsText, stepText, ""}, "partial-with-error")
 					}
 				} else {
 					ids := make([]string, len(certs))
@@ -1719,16 +1732,16 @@ func runC13(a *Args) error {
 				} else if strings.HasPrefix(sc.family, "ctx:") {
 					doneAt := "None"
 					ctxText = "context.Background()"
-					switch q.ctx {
+					switch qc.ctx {
 					case 's':
-						doneAt = CSome(CN(int64(q.after)))
-						ctxText = fmt.Sprintf("scripted context: Err()/Done() report deadline exceeded from poll %d on", q.after+1)
+						doneAt = CSome(CN(int64(qc.after)))
+						ctxText = fmt.Sprintf("scripted context: Err()/Done() report deadline exceeded from poll %d on", qc.after+1)
 					case 'c':
 						doneAt = CSome(CN(0))
 						ctxText = "context.WithCancel, cancelled before the call"
 					}
 					term = CApp("GC", CApp("mk_ccase", CN(my), CApp("mk_input", CStr(q.ty), CStr(q.name), tree), doneAt, obs))
-					w.Count("ctx", map[byte]string{0: "background", 's': "scripted", 'c': "cancelled"}[q.ctx])
+					w.Count("ctx", map[byte]string{0: "background", 's': "scripted", 'c': "cancelled"}[qc.ctx])
 				} else {
 					term = CApp("GB", CApp("mk_case", CN(my), CApp("mk_input", CStr(q.ty), CStr(q.name), tree), obs))
 				}
